@@ -282,8 +282,8 @@ func (c *Ctx) rpcMethods() map[string]*types.Func {
 
 // Reach options.
 type reachOpt struct {
-	noGo    bool                          // ignore `go` edges
-	stopAt  func(f *ssa.Function) bool    // do not expand these functions
+	noGo    bool                           // ignore `go` edges
+	stopAt  func(f *ssa.Function) bool     // do not expand these functions
 	skipSit func(ssa.CallInstruction) bool // ignore these call sites
 }
 
